@@ -130,3 +130,14 @@ def u_validate_add(E):
         from pyvc.models import use_sigma_congruence
         use_sigma_congruence(E)
     E.prove('validate(add(s))/accepted', z3.BoolVal(out == 'ok'), 'P')
+
+
+@unit('card.calculate_check_digit/no-state-between-calls', props=['C15'], functions=[Q + 'calculate_check_digit', Q + 'validate_check_digit'])
+def u_ccd_twice(E):
+    """the result depends on the argument only: a second call (after a call on any other number) still returns the Luhn digit"""
+    s1 = digit_string(E, 's1')
+    s2 = digit_string(E, 's2')
+    E.native_input({'s': s2, 'opt': False})
+    E.call(Q + 'calculate_check_digit', s1)
+    r = E.call(Q + 'calculate_check_digit', s2)
+    expect_char(E, 'ccd/second-call', r, 48 + S.luhn_cd(E, lambda i: s2.at(i) - 48, s2.n))
